@@ -27,8 +27,8 @@ class C16(Prop):
 
     def plan(self, tier):
         if tier == "quick":
-            return {"units": 6000, "budget_s": 75, "block": 100}
-        return {"units": 250000, "budget_s": 1500, "block": 200}
+            return {"units": 20000, "budget_s": 90, "block": 100}
+        return {"units": 600000, "budget_s": 1500, "block": 200}
 
     def gen(self, rng, idx, tier):
         nodes, servers = gen.node_specs(1, unix=rng.random() < 0.15, item_max=rng.choice([None, None, 100]))
